@@ -21,7 +21,8 @@ the enumerate-style calls write nothing but their own slot (`cgetters_keep_edito
 **2. Contexts are independent.**  Two contexts are two editor values, each with its own dictionary
 value (= they do not share a user-dictionary file; a shared file would be an `Env` operation of one
 changing the `D` of the other and is outside this product model).  `contexts_independent`: an
-interleaved history projects to the two separate histories, results included; `steps_commute`;
+interleaved history projects to the two separate histories, results included; `contexts_independent_panic`:
+an interleaved history that panics does so with the panic of one context running alone; `steps_commute`;
 `other_context_untouched`.  Real shared process state, by reading `capi/src/io.rs`: the `OWNED`
 registry (pointer → kind, consulted by `chewing_free` only; feeds no result) and the logger slot
 `LOGGER`.  The logger slot IS observable by the application (a callback receives another context's
@@ -261,6 +262,51 @@ theorem contexts_independent (h : List (Op L₁ ⊕ Op L₂)) :
         | panic s => rw [hrest] at hr; cases hr
         | outOfFuel => rw [hrest] at hr; cases hr
       | panic s => rw [hb] at hr; cases hr
+      | outOfFuel => rw [hb] at hr; cases hr
+
+/-- … and when the interleaved history panics, it is the panic of one of the two contexts running alone
+    (same message): interleaving creates no new failures -/
+theorem contexts_independent_panic (h : List (Op L₁ ⊕ Op L₂)) :
+    ∀ (p : Pair D₁ L₁ D₂ L₂) (s : String), p.run envA envB h = .panic s →
+      p.a.runR envA (lefts h) = .panic s ∨ p.b.runR envB (rights h) = .panic s := by
+  induction h with
+  | nil => intro p s hr; simp only [Pair.run] at hr; cases hr
+  | cons c cs ih =>
+    intro p s hr
+    cases c with
+    | inl o =>
+      simp only [Pair.run, Pair.step] at hr
+      simp only [lefts, rights, Editor.runR]
+      cases ha : p.a.applyR envA o with
+      | ok x =>
+        obtain ⟨a', v⟩ := x
+        rw [ha] at hr; simp only [Outcome.map_ok] at hr
+        cases hrest : Pair.run envA envB { p with a := a' } cs with
+        | ok y => rw [hrest] at hr; cases hr
+        | panic s' =>
+          rw [hrest] at hr; simp only [Outcome.map] at hr; cases hr
+          rcases ih _ _ hrest with h1 | h2
+          · left; simp only at h1; show Outcome.map _ (Editor.runR envA a' (lefts cs)) = _; rw [h1]; rfl
+          · right; exact h2
+        | outOfFuel => rw [hrest] at hr; cases hr
+      | panic s' => rw [ha] at hr; simp only [Outcome.map] at hr; cases hr; left; rfl
+      | outOfFuel => rw [ha] at hr; cases hr
+    | inr o =>
+      simp only [Pair.run, Pair.step] at hr
+      simp only [lefts, rights, Editor.runR]
+      cases hb : p.b.applyR envB o with
+      | ok x =>
+        obtain ⟨b', v⟩ := x
+        rw [hb] at hr; simp only [Outcome.map_ok] at hr
+        cases hrest : Pair.run envA envB { p with b := b' } cs with
+        | ok y => rw [hrest] at hr; cases hr
+        | panic s' =>
+          rw [hrest] at hr; simp only [Outcome.map] at hr; cases hr
+          rcases ih _ _ hrest with h1 | h2
+          · left; exact h1
+          · right; simp only at h2; show Outcome.map _ (Editor.runR envB b' (rights cs)) = _; rw [h2]; rfl
+        | outOfFuel => rw [hrest] at hr; cases hr
+      | panic s' => rw [hb] at hr; simp only [Outcome.map] at hr; cases hr; right; rfl
       | outOfFuel => rw [hb] at hr; cases hr
 
 end pair
@@ -580,6 +626,9 @@ def f25Env : Env Unit Nat where
   read l := l
   altSyllables _ _ := []
 
+/-- the same, but the conversion engine finds no path (C01's finding class) -/
+def noWordEnv : Env Unit Nat := { f25Env with convert := fun _ _ _ => .panic "conv-no-path" }
+
 def f25Start : Editor Unit Nat := Editor.fresh { syl := 0, engine := .chewing, dict := (), abbr := [], symSel := {}, options := {}, time := 0 }
 
 def kH : Op Nat := .key { index := 32, code := 32, unicode := 104 }
@@ -627,5 +676,18 @@ example : ∃ e tr, f25Start.runQ f25Env
     Ev.rets tr = [.kb .absorb, .kb .absorb, .kb .absorb, .kb .absorb] := ⟨_, _, rfl, by decide⟩
 
 example : (f25Start.run f25Env f25Prefix).map (·.query f25Env .allCandidates) = .ok (.ok (.texts [[28204]])) := by decide
+
+/-- non-vacuity: two contexts, an interleaved history that completes; each context's return values in its own order -/
+example : ∃ p' vs, (Pair.run f25Env f25Env { a := f25Start, b := f25Start }
+      [.inl kH, .inr kH, .inr k4, .inl k4, .inr kDown]) = .ok (p', vs) ∧
+    Tagged.as vs = [.kb .absorb, .kb .absorb] ∧ Tagged.bs vs = [.kb .absorb, .kb .absorb, .kb .absorb] :=
+  ⟨_, _, rfl, by decide, by decide⟩
+
+
+/-- the hypothesis of `contexts_independent_panic` is satisfiable: when the conversion
+    engine of context B finds no path its commit panics (C01's finding class), and it is B alone that panics -/
+example : (Pair.run f25Env noWordEnv { a := f25Start, b := f25Start } [.inl kH, .inr kH, .inr k4, .inl k4, .inr .commit]) = .panic "conv-no-path" ∧
+    f25Start.runR noWordEnv (rights ([.inl kH, .inr kH, .inr k4, .inl k4, .inr .commit] : List (Op Nat ⊕ Op Nat))) = .panic "conv-no-path" :=
+  ⟨rfl, rfl⟩
 
 end Chewing.C17
